@@ -200,7 +200,7 @@ def run_conv(rec, case):
                    [e['reason'] for e in sd]))
         rec.key('%s/%s/%s/%s/%s' % (pair, transport, (pi, pt), ''.join(
             s[0] for s in steps), ender))
-        if rec.evaluations % 61 == 0:
+        if rec.evaluations % 61 == 1:
             rec.sample({'conversation': desc, 'steps': steps,
                         'up': len(up), 'down': len(down), 'ender': ender})
     finally:
